@@ -1,0 +1,41 @@
+//go:build verif
+
+package compiler
+
+// Specification vocabulary and contracts checked by /verif/hvc (build tag
+// verif only; see /verif/DESIGN.md).
+
+// VInstrWF: the dynamic type of a relocated (executable) instruction is the
+// one its opcode requires, and its immediates are present. This is what the
+// instruction interpreter relies on when it type-asserts an instruction.
+func VInstrWF(i Instruction) bool {
+	if i == nil {
+		return false
+	}
+	switch i.Opcode() {
+	case Opcode_AddMempointer, Opcode_Jump, Opcode_JumpIfFalse, Opcode_GetVarImm, Opcode_SetVarImm:
+		_, ok := i.(OneIntInstruction)
+		return ok
+	case Opcode_Copy_Push, Opcode_Cloning_Push:
+		v, ok := i.(ValueInstruction)
+		return ok && v.Value != nil
+	case Opcode_Spawn, Opcode_Call_Imm, Opcode_HostCall, Opcode_GetGlobImm, Opcode_SetGlobImm, Opcode_Member, Opcode_Member_Anyobj:
+		_, ok := i.(OneStringInstruction)
+		return ok
+	case Opcode_Load_Singleton, Opcode_Import:
+		_, ok := i.(TwoStringInstruction)
+		return ok
+	case Opcode_SetTryLabel:
+		_, ok := i.(OneIntOneStringInstruction)
+		return ok
+	case Opcode_Cast:
+		c, ok := i.(CastInstruction)
+		return ok && c.Type != nil
+	case Opcode_Into_Range:
+		_, ok := i.(OneBoolInstruction)
+		return ok
+	case Opcode_Label:
+		return false // labels are removed by relocation
+	}
+	return true
+}
